@@ -101,6 +101,10 @@ def timeout_with_mapper_(
             def on_next(x: _T) -> None:
                 if observer_wins():
                     observer.on_next(x)
+                    if timer.is_disposed:
+                        # unsubscribed from inside that on_next
+                        return
+
                     timeout = None
                     try:
                         timeout = (
